@@ -66,10 +66,20 @@ func genRace(r *Rng, prop string) *Scenario {
 		// BaseClient: concurrent callers + inbound traffic acknowledged by the reader
 		cfg.Client = "base"
 		cfg.InitIDs = []uint32{uint32(r.pickI(0xFFF0, 0xFFFA, 0, 0x7FFF, 0x1FFF8))}
-		sc.Ops = append(sc.Ops, Op{AtUs: 0, Actor: 1, Kind: "handle", Handler: 1})
+		hk := 1
+		if r.chance(0.4) {
+			hk = 7 // a handler that keeps reading its message on its own goroutine
+		}
+		sc.Ops = append(sc.Ops, Op{AtUs: 0, Actor: 1, Kind: "handle", Handler: hk})
 		sc.Ops = append(sc.Ops, Op{AtUs: 1, Actor: 0, Kind: "connect"})
 		t := int64(1000)
 		for ph := 0; ph < int(r.between(1, 3)); ph++ {
+			if r.chance(0.4) {
+				// tiny inbound packets back to back (bodies of a few bytes)
+				for i := 0; i < int(r.between(2, 6)); i++ {
+					sc.Script = append(sc.Script, Out{Conn: 1, AtUs: t, Kind: "pkt", Pkt: &Pkt{Type: TPublish, QoS: 0, Topic: "a", Pay: fmt.Sprintf("%d", i)}})
+				}
+			}
 			n := int(r.between(2, 8))
 			if prop == "C15" {
 				n = int(r.between(8, 64))
@@ -338,6 +348,8 @@ func genRaceC16(r *Rng, sc *Scenario) *Scenario {
 		}
 		if r.chance(0.2) {
 			ends = ends[1:] // without Disconnect: Closed must carry the error Err() keeps
+			// ... and someone waiting on Done() finds that error
+			sc.Ops = append(sc.Ops, Op{AtUs: t, Actor: 80 + c, Kind: "donewatch", Cli: c, Repeat: 20000})
 		}
 		for j, e := range ends {
 			at := t
